@@ -7,6 +7,7 @@ from ..r_hygiene import rule_hygiene as _rule_hygiene
 from ..r_readers import rule_tokenizer_rejections as _rule_tok_rej
 from ..r_codebooks import rule_cx_radical_lists as _rule_cxr
 from ..r_rings import rule_hybridization_table as _rule_hyb
+from ..r_codebooks import rule_not_bond_complement as _rule_notbond
 
 LEVEL = 'other'
 
@@ -31,3 +32,4 @@ def run(ck, repo):
     _rule_tok_rej(ck, repo, 'C08.D3-tokenizer-rejections')
     _rule_cxr(ck, repo, 'C08.D2-cx-radical-lists', ['chython.files.daylight.smiles', 'chython.files.daylight.smarts'])
     _rule_hyb(ck, repo, 'C08.D4-hybridization')
+    _rule_notbond(ck, repo, 'C08.D5-not-bond-complement')
